@@ -4,7 +4,8 @@
    items (all numbers decimal):
      F id name | O id name | P addr psize name | U addr size psize name
      L addr size line file | I depth cline cfile origin k (addr size)*k | W ty addr size psize tag
-     Y bits                       text style from here on: 1 = CRLF line ends (whole file), 2 = upper-case hex, 4 = a leading zero on hex fields
+     Y bits                       text style from here on: 1 = CRLF line ends (whole file), 2 = upper-case hex, 4 = a leading zero on hex fields,
+                                  8 = space-tab-space between the fields
      Z addr size psize name len   a FUNC line longer than MAX_BUFFER_CAPACITY (len >= 163840 padding bytes):
                                   SymbolFile::parse drops it in panic recovery, cur_item stays as it is, so the
                                   sub-records that follow go to the FUNC block that is still open (C09's model:
@@ -57,6 +58,20 @@ let hexw (w : int) (v : z) : string =
   let s = ZA.format (if !style land 2 <> 0 then "%X" else "%x") (z_to_zt v) in
   if !style land 4 <> 0 && String.length s < w then "0" ^ s else s
 let hex (v : z) : string = hexw 16 v
+(* style 8: the field separators number skip .. skip + n - 1 of the line (single spaces) become space, tab, space *)
+let sep (skip : int) (n : int) (line : string) : string =
+  if !style land 8 = 0 then line
+  else begin
+    let b = Buffer.create (String.length line + 2 * n) in
+    let i = ref 0 in
+    String.iter (fun ch ->
+      if ch = ' ' then begin
+        if !i >= skip && !i < skip + n then Buffer.add_string b " \t " else Buffer.add_char b ' ';
+        incr i end
+      else Buffer.add_char b ch) line;
+    Buffer.contents b
+  end
+let mlen (n : z) : int = if int_of_z n mod 3 = 0 then 1 else 0
 let hex8 (v : z) : string = hexw 8 v
 let zbyte = Array.init 256 (fun i -> z_of_int i)
 let zone = z_of_int 1
@@ -118,25 +133,25 @@ let () =
           match next () with
           | "Y" -> style := int_of_string (next ()); if !style land 1 <> 0 then crlf := true
           | "F" -> close (); let id = nz () in let nm = nz () in files := (id, nm) :: !files;
-                   emit ("FILE " ^ zs id ^ " " ^ name_str 's' nm)
+                   emit (sep 0 2 ("FILE " ^ zs id ^ " " ^ name_str 's' nm))
           | "O" -> let id = nz () in let nm = nz () in origins := (id, nm) :: !origins;
-                   emit ("INLINE_ORIGIN " ^ zs id ^ " " ^ name_str 'o' nm)
+                   emit (sep 0 2 ("INLINE_ORIGIN " ^ zs id ^ " " ^ name_str 'o' nm))
           | "P" -> close (); let a = nz () in let ps = nz () in let nm = nz () in
                    pubs := { p_addr = a; p_name = nm; p_psize = ps } :: !pubs;
-                   emit ("PUBLIC " ^ mflag nm ^ hex a ^ " " ^ hex8 ps ^ " " ^ name_str 'p' nm)
+                   emit (sep 0 (3 + mlen nm) ("PUBLIC " ^ mflag nm ^ hex a ^ " " ^ hex8 ps ^ " " ^ name_str 'p' nm))
           | "U" -> close (); let a = nz () in let s = nz () in let ps = nz () in let nm = nz () in
                    cur := Some ((a, s, ps, nm), [], []);
-                   emit ("FUNC " ^ mflag nm ^ hex a ^ " " ^ hex8 s ^ " " ^ hex8 ps ^ " " ^ name_str 'f' nm)
+                   emit (sep 0 (4 + mlen nm) ("FUNC " ^ mflag nm ^ hex a ^ " " ^ hex8 s ^ " " ^ hex8 ps ^ " " ^ name_str 'f' nm))
           | "L" -> let a = nz () in let s = nz () in let ln = nz () in let fl = nz () in
-                   emit (hex a ^ " " ^ hex8 s ^ " " ^ zs ln ^ " " ^ zs fl);
+                   emit (sep 0 3 (hex a ^ " " ^ hex8 s ^ " " ^ zs ln ^ " " ^ zs fl));
                    (match !cur with
                     | Some (h, ls, is) -> cur := Some (h, { l_addr = a; l_size = s; l_file = fl; l_line = ln } :: ls, is)
                     | None -> orphan := true)
           | "I" -> let d = nz () in let cl = nz () in let cf = nz () in let og = nz () in
                    let k = int_of_string (next ()) in
                    let rs = List.init k (fun _ -> let a = nz () in let s = nz () in (a, s)) in
-                   emit ("INLINE " ^ zs d ^ " " ^ zs cl ^ " " ^ zs cf ^ " " ^ zs og
-                         ^ String.concat "" (List.map (fun (a, s) -> " " ^ hex a ^ " " ^ hex8 s) rs));
+                   emit (sep 0 (4 + 2 * k) ("INLINE " ^ zs d ^ " " ^ zs cl ^ " " ^ zs cf ^ " " ^ zs og
+                         ^ String.concat "" (List.map (fun (a, s) -> " " ^ hex a ^ " " ^ hex8 s) rs)));
                    (match !cur with
                     | Some (h, ls, is) ->
                         let is' = List.fold_left (fun acc (a, s) ->
@@ -146,13 +161,13 @@ let () =
           | "Z" -> let a = nz () in let s = nz () in let ps = nz () in let nm = nz () in
                    let len = int_of_string (next ()) in
                    if len < 163840 then failwith "Z must be over-long";
-                   text := (true, rle_of_string ("FUNC " ^ hex a ^ " " ^ hex8 s ^ " " ^ hex8 ps ^ " " ^ name_str 'f' nm)
+                   text := (true, rle_of_string (sep 0 4 ("FUNC " ^ hex a ^ " " ^ hex8 s ^ " " ^ hex8 ps ^ " " ^ name_str 'f' nm))
                                   @ [(zbyte.(Char.code 'x'), z_of_int len)]) :: !text
           | "W" -> close (); let ty = int_of_string (next ()) in
                    let a = nz () in let s = nz () in let ps = nz () in let tg = nz () in
                    let w = { w_addr = a; w_size = s; w_psize = ps; w_tag = tg } in
-                   emit ("STACK WIN " ^ Printf.sprintf "%x" ty ^ " " ^ hex a ^ " " ^ hex8 s ^ " " ^ hex8 tg ^ " 0 " ^ hex8 ps
-                         ^ " 0 0 0 " ^ (if ty = 4 then "1 $eip 4 + ^ =" else "0 0"));
+                   emit (sep 1 11 ("STACK WIN " ^ Printf.sprintf "%x" ty ^ " " ^ hex a ^ " " ^ hex8 s ^ " " ^ hex8 tg ^ " 0 " ^ hex8 ps
+                         ^ " 0 0 0 " ^ (if ty = 4 then "1 $eip 4 + ^ =" else "0 0")));
                    if ty = 4 then wfd := w :: !wfd else if ty = 0 then wfpo := w :: !wfpo else ()
           | t -> failwith ("bad item " ^ t)
         done;
